@@ -18,15 +18,20 @@
 (* WriteConvention = "count" is the repaired tool (a write succeeded iff   *)
 (* it transferred the whole buffer); "nonzero" is the shipped convention   *)
 (* "!safe_file_write()" with -1 on error, kept as a negative instance.     *)
+(* ReadConvention = "loop" is the shipped safe_file_read (a read() that     *)
+(* returns fewer bytes than asked is followed by another one: pipes, ttys,  *)
+(* sockets deliver in bursts); "once" takes the first short count for the   *)
+(* end of the stream and is kept as a second negative instance.             *)
 EXTENDS Integers, Sequences, TLC
 
-CONSTANTS MaxBlocks, WriteConvention
+CONSTANTS MaxBlocks, WriteConvention, ReadConvention
 
 Ops == {"open", "read", "write", "getrandom"}
 Kinds == {"error", "short", "eintr"}
 NoFault == [op |-> "none", k |-> 0, kind |-> "none"]
 Faults == {NoFault} \cup [op : Ops, k : 1..(2 * MaxBlocks + 6), kind : {"error", "eintr"}]
           \cup [op : {"write"}, k : 1..(2 * MaxBlocks + 6), kind : {"short"}]    \* disk full after a partial write
+          \cup [op : {"read"}, k : 1..(2 * MaxBlocks + 6), kind : {"short"}]     \* a burst boundary of a pipe: not the end
 
 \* the encrypted input of a decryption: which parts are authentic
 Inputs == [hdr : BOOLEAN, pw : BOOLEAN, tag16 : BOOLEAN, blocks : 0..MaxBlocks, body : BOOLEAN, tag : BOOLEAN]
@@ -49,11 +54,13 @@ Sys(op) ==
   LET n == calls[op] + 1
       here == fault.op = op /\ fault.k = n
   IN [res |-> IF here /\ fault.kind = "error" THEN "fail"
-              ELSE IF here /\ fault.kind = "short" /\ op \in {"read", "write"} THEN "short"
+              ELSE IF here /\ fault.kind = "short" /\ op = "write" THEN "short"
+              ELSE IF here /\ fault.kind = "short" /\ op = "read" THEN (IF ReadConvention = "loop" THEN "ok" ELSE "eof")
               ELSE IF tripped /\ fault.op = op /\ op = "write" /\ fault.kind = "short" THEN "fail"   \* disk stays full
               ELSE "ok",
-      calls |-> [calls EXCEPT ![op] = IF here /\ fault.kind = "eintr" THEN n + 1 ELSE n],
-      trip |-> tripped \/ (here /\ fault.kind # "eintr")]
+      calls |-> [calls EXCEPT ![op] = IF here /\ (fault.kind = "eintr" \/ (fault.kind = "short" /\ op = "read" /\ ReadConvention = "loop")) THEN n + 1 ELSE n],
+      \* a disturbance is a fault the tool cannot absorb: EINTR and a short read of a live stream are not
+      trip |-> tripped \/ (here /\ fault.kind # "eintr" /\ ~(fault.kind = "short" /\ op = "read"))]
 
 \* did a write of a whole buffer succeed, as the tool judges it?
 WriteOK(res) == IF WriteConvention = "count" THEN res = "ok"
@@ -93,7 +100,7 @@ EncRead == /\ pc = "enc_read"
               ELSE LET s == Sys("read") IN
                    /\ calls' = s.calls /\ tripped' = s.trip
                    /\ IF s.res = "fail" THEN /\ exitv' = 0 /\ stderr' = TRUE /\ Goto("enc_final") /\ UNCHANGED blk
-                      ELSE IF blk >= input.blocks THEN Goto("enc_final") /\ UNCHANGED <<exitv, blk, stderr>>     \* end of file
+                      ELSE IF blk >= input.blocks \/ s.res = "eof" THEN Goto("enc_final") /\ UNCHANGED <<exitv, blk, stderr>>     \* end of file
                       ELSE /\ blk' = blk + 1 /\ Goto("enc_write") /\ UNCHANGED <<exitv, stderr>>
            /\ UNCHANGED <<mode, fault, input, outExists, outBlocks>>
 EncWrite == /\ pc = "enc_write"
@@ -131,7 +138,7 @@ DecRead == /\ pc = "dec_read"
               ELSE LET s == Sys("read") IN
                    /\ calls' = s.calls /\ tripped' = s.trip
                    /\ IF s.res = "fail" THEN /\ exitv' = 0 /\ stderr' = TRUE /\ Goto("dec_final") /\ UNCHANGED blk
-                      ELSE IF blk >= input.blocks THEN Goto("dec_final") /\ UNCHANGED <<exitv, blk, stderr>>
+                      ELSE IF blk >= input.blocks \/ s.res = "eof" THEN Goto("dec_final") /\ UNCHANGED <<exitv, blk, stderr>>
                       ELSE /\ blk' = blk + 1 /\ Goto("dec_write") /\ UNCHANGED <<exitv, stderr>>
            /\ UNCHANGED <<mode, fault, input, outExists, outBlocks>>
 DecWrite == /\ pc = "dec_write"
